@@ -125,6 +125,15 @@ def run(m: Model, r: Report, tier: str) -> None:
     r.check(len(loops) == 1 and htypes == ["ConnectionError"], "R5", f"{rc.qualname}#retry-on-connection-error",
             f"the connect loop retries on {htypes}; every ConnectionError (refused, reset, broken pipe from a half-started gateway) "
             "must lead to another attempt until the timeout", loc=rc.loc)
+    from sa.util import path_condition, truth_table
+    rr = [x for h_ in hs for x in ast.walk(h_) if isinstance(x, ast.Raise)]
+    tpar = rc.params()[1] if len(rc.params()) > 1 else "timeout"
+    badr = []
+    for x in rr:
+        badr += truth_table(path_condition(rc.node, x), {tpar: [None, 0.5, 10.0]}, lambda a: a[tpar] is None)
+    r.check(len(rr) == 1 and not badr, "R5", f"{rc.qualname}#gives-up-iff-no-timeout",
+            f"a failed connection attempt ends the reconnect on {badr or 'no / several paths'}: it must be re-raised exactly when no timeout was given "
+            "(one attempt), and retried until the timeout otherwise", loc=rc.loc)
     r.check("async with asyncio.timeout(timeout)" in txt, "R5", f"{rc.qualname}#timeout-scope", "the connect loop must run under asyncio.timeout(timeout)", loc=rc.loc)
     rets = [ast.unparse(n.value) for n in walk_no_nested(rc.node) if isinstance(n, ast.Return) and n.value is not None]
     r.check(rets == ["await self.connect(self.target)"], "R5", f"{rc.qualname}#returns-new-transport", f"reconnect returns {rets}", loc=rc.loc)
